@@ -64,8 +64,8 @@ type statLine struct {
 	NT bool        `json:"nt"`
 	L  []string    `json:"l,omitempty"`
 	S  interface{} `json:"s,omitempty"`
-	K  string      `json:"k,omitempty"` // known-finding key hit
-	X  int         `json:"x,omitempty"` // excluded-by-construction count
+	K  string      `json:"k,omitempty"`   // known-finding key hit
+	X  int         `json:"x,omitempty"`   // excluded-by-construction count
 	N  int64       `json:"cnt,omitempty"` // this line stands for N evaluations (bulk enumerations)
 	DN int64       `json:"dn,omitempty"`  // ... of which DN are distinct and non-trivial
 }
